@@ -842,9 +842,17 @@ func (r *Rig) DeliverBlockAt(t time.Time, txs []Tx) *BlockRecord {
 	if r.Journal != nil {
 		r.Journal.BlockDone(br)
 	}
+	if AbortHook != nil && (br.BeginPanic != nil || br.EndPanic != nil || br.FinalErr != nil) {
+		AbortHook(br)
+	}
 	r.SyncSeqs()
 	return br
 }
+
+// AbortHook, if set, is told about every block whose begin/end block processing aborted (or whose FinalizeBlock
+// failed), on whichever rig of this process - a check that borrows other checks' directors uses it to judge aborts
+// that those directors merely report as "cannot continue".
+var AbortHook func(br *BlockRecord)
 
 // SyncSeqs re-reads the sequence numbers of the rig accounts from committed state, so that a tx
 // rejected by the ante handler (whose sequence was therefore not consumed) does not desynchronise the signer.
